@@ -279,6 +279,44 @@ def _single_trial_possible_excl_only(model, fixed, all_basic_levels=False):
     return False
 
 
+def _removed_one_rule_at_a_time(model, fids):
+    """Combinations of the crossing `fids` removed by the documented rules applied one at a time: (i) it contains an excluded
+    level; (ii) it contains a level of a within-trial derived factor that no completion by the uncrossed basic factors (all
+    their levels) yields; (iii) some excluded level of a within-trial derived factor outside the crossing is yielded by every
+    completion.  Derived arguments are computed from the basic factors, never chosen freely."""
+    F = model.factors
+    free_b = [fid for fid in model.design if F[fid].kind == "basic" and fid not in fids]
+    simple_derived = sorted([fid for fid in model.design if F[fid].kind == "derived" and not F[fid].complex], key=lambda i: F[i].depth)
+    out = set()
+    for combo in itertools.product(*[F[fid].levels for fid in fids]):
+        fixed = dict(zip(fids, combo))
+        rem = any((fid, lv) in model.excluded for fid, lv in fixed.items())
+        if not rem:
+            comps = []
+            for free in itertools.product(*[F[b_].levels for b_ in free_b]):
+                trial = {fid: lv for fid, lv in fixed.items() if F[fid].kind == "basic"}
+                trial.update(zip(free_b, free))
+                for did in simple_derived:
+                    d = F[did]
+                    if any(a.id not in trial for a in d.args):
+                        continue
+                    mm = matching_levels(d, tuple(trial[a.id] for a in d.args))
+                    if len(mm) == 1:
+                        trial[did] = mm[0]
+                comps.append(trial)
+            for fid, lv in fixed.items():
+                d = F[fid]
+                if d.kind == "derived" and not d.complex and not any(c_.get(fid) == lv for c_ in comps):
+                    rem = True
+            for (eid, elv) in model.excluded:
+                e = F[eid]
+                if e.kind == "derived" and not e.complex and eid not in fixed and comps and all(c_.get(eid) == elv for c_ in comps):
+                    rem = True
+        if rem:
+            out.add(combo)
+    return out
+
+
 def _crossing_spec(model, fids, rcc):
     F = model.factors
     c = Cx()
@@ -302,27 +340,11 @@ def _crossing_spec(model, fids, rcc):
             c.cweights[combo] = w
             size += w
     c.size = size
-    # the documented removal rule looks at one derived level at a time (B.2); when that and the joint
-    # single-trial feasibility above disagree the documentation does not say which is meant
-    indep_removed = set()
-    for combo in itertools.product(*[F[fid].levels for fid in fids]):
-        fixed = dict(zip(fids, combo))
-        rem = any((fid, lv) in model.excluded for fid, lv in fixed.items())
-        for fid, lv in fixed.items():
-            d = F[fid]
-            if rem or d.kind != "derived" or d.complex:
-                continue
-            choices = [[fixed[a.id]] if a.id in fixed else list(a.levels) for a in d.args]
-            if not any(matching_levels(d, key) == [lv] for key in itertools.product(*choices)):
-                rem = True
-        if rem:
-            indep_removed.add(combo)
-    if not (indep_removed <= c.removed) or any(
-            _single_trial_possible_excl_only(model, dict(zip(fids, combo))) for combo in (c.removed - indep_removed)):
-        model.gaps.append("joint-infeasible-combination")
-    elif any(_single_trial_possible_excl_only(model, dict(zip(fids, combo)), all_basic_levels=True) for combo in (c.removed - indep_removed)):
-        # removed only because an Exclude of an uncrossed basic level leaves no completion that avoids an excluded derived
-        # level: two Exclude constraints acting jointly, which the documented (one level at a time) rule does not cover
+    # the documented removal rule looks at one excluded or impossible level at a time (B.2); the set computed above asks
+    # whether one trial can show the combination with ALL exclusions and definitions respected at once.  Where the two
+    # differ (two Excludes that are only jointly unsatisfiable, an Exclude of an uncrossed basic level that leaves no
+    # completion avoiding another Exclude, ...) the documentation does not say which is meant: a gap, not an oracle
+    if _removed_one_rule_at_a_time(model, fids) != c.removed:
         model.gaps.append("joint-infeasible-combination")
     c.pre = max([F[fid].start for fid in fids if F[fid].kind == "derived" and F[fid].complex] + [0])
     return c
